@@ -349,6 +349,53 @@ def concurrent_stress(chk, workdir, refs, rounds):
     return n
 
 
+_CHILD = """
+import sys, json, numpy as np
+sys.path.insert(0, %r)
+from harness import common, check_cache as cc
+req = json.loads(sys.argv[1])
+q, kw = cc.concrete(req)
+cache = cc.make_recording_cache(sys.argv[2])
+out = cc.call_solver(q, kw, cache=cache)
+np.savez(sys.argv[3], conc=np.asarray(out[1]), flx=np.asarray(out[2]))
+print("RESULT " + json.dumps({"hit": any(cache.gets), "puts": cache.puts}))
+"""
+
+
+def cross_process(chk, workdir, refs):
+    """the directory outlives the process: the same request from fresh interpreters with DIFFERENT string-hash seeds
+    (PYTHONHASHSEED) - the first solves and stores, every later one is served, all results equal the cache-free solve"""
+    d = os.path.join(workdir, "xproc")
+    shutil.rmtree(d, ignore_errors=True)
+    n = 0
+    for req in ({p: 0 for p in PARAMS}, dict({p: 0 for p in PARAMS}, halo=2, levels=1, analytic=1)):
+        rk = req_key(req)
+        if rk not in refs:
+            q, kw = concrete(req)
+            refs[rk] = call_solver(q, kw, cache=None)
+        for k, hs in enumerate(("11", "4242", "random", "7")):
+            out = os.path.join(workdir, "xproc_out.npz")
+            env = dict(os.environ, PYTHONHASHSEED=hs)
+            env.pop("BLDFM_VERIF_TRACE", None)
+            p = subprocess.run([common.PY, "-c", _CHILD % common.VERIF, json.dumps(req), d, out], env=env, cwd=workdir, stdout=subprocess.PIPE, stderr=subprocess.STDOUT, text=True)
+            line = [l for l in p.stdout.splitlines() if l.startswith("RESULT ")]
+            sc = {"kind": "cross_process", "request": req, "process": k, "hash_seed": hs}
+            if p.returncode != 0 or not line:
+                chk.violation("a request from a fresh process on an existing cache directory failed: %s" % p.stdout[-300:], sc, klass={"check": "cross_process_fatal"})
+                return n
+            n += 1
+            res = json.loads(line[0][7:])
+            got = np.load(out)
+            ref = refs[rk]
+            if not (np.array_equal(got["conc"], np.asarray(ref[1])) and np.array_equal(got["flx"], np.asarray(ref[2]))):
+                chk.violation("process %d (hash seed %s) got a result that differs from the cache-free solve" % (k, hs), sc, klass={"check": "cross_process_wrong"})
+                return n
+            if k > 0 and not res["hit"]:
+                chk.violation("an identical request from another process (hash seed %s) on the same directory was not served from the cache" % hs, sc, klass={"check": "cross_process_effective"})
+                return n
+    return n
+
+
 CACHE_EVENTS = {"cache_get", "cache_hit", "cache_put_begin", "cache_put_end", "ext_truncate", "ext_newdir"}
 
 
@@ -454,6 +501,7 @@ def main():
     chk.extra["requests_executed"] = nreq
     chk.extra["truncation_offsets"] = truncation_sweep(chk, work, refs, "all" if t == "thorough" else "sample")
     chk.extra["concurrent_requests"] = concurrent_stress(chk, work, refs, 3 if t == "quick" else 25)
+    chk.extra["cross_process_requests"] = cross_process(chk, work, refs)
     os.environ.pop("BLDFM_VERIF_TRACE", None)
     validate_cache_trace(chk, tracefile)
     if t == "thorough":
